@@ -37,7 +37,7 @@ def main():
         "hooks": {
             "guard": "verif",
             "enable": "no source change is committed to /repo for instrumentation: ./check generates a `go build -overlay` (tools/overlaygen: crypto/rand, time.Now and, for C18, sync/sync-atomic are redirected to the verifshim seam packages in /verif/shim) and builds the harness with `-tags verif -overlay <generated>/overlay.json` from /repo's current working tree",
-            "baseline_off_cmd": "cd /repo && GOFLAGS=-mod=mod GOPROXY=off GOSUMDB=off GOTOOLCHAIN=local go test -vet=off -count=1 -timeout 25m ./...",
+            "baseline_off_cmd": "cd /repo && DBUS_SESSION_BUS_ADDRESS=unix:path=/nonexistent GOFLAGS=-mod=mod GOPROXY=off GOSUMDB=off GOTOOLCHAIN=local go test -vet=off -count=1 -timeout 25m ./...",
             "source_commits": [],
             "add_only": True,
         },
